@@ -126,6 +126,15 @@ class ConsistentLeg(object):
         bad = _cmp_dialect(it.dialect, want_o, "DataIterator(checklines=%d).dialect" % cl)
         if bad:
             return bad
+        if n % 3 == 0:
+            import gzip
+
+            gz = ctx.path("in.txt.gz")
+            with gzip.open(gz, "wb") as fh:
+                fh.write(text.replace("\n", "\r\n").encode("utf-8"))
+            bad = _cmp_dialect(DataIterator(gz, checklines=cl).dialect, want_o, "DataIterator(<gzip copy with CRLF line ends>).dialect")
+            if bad:
+                return bad
         dbfn = ctx.path("o.db") if case["file_db"] else ":memory:"
         db = gffutils.create_db(path, dbfn, checklines=cl, keep_order=True)
         bad = _cmp_dialect(db.dialect, want_o, "create_db(checklines=%d).dialect" % cl)
